@@ -68,6 +68,37 @@ int main() {
           try { SU_vector res(U); if ((int)res.Dim() != r) note = "result-dim"; } catch (std::exception&) { threw = true; }
         }
         if (parent) gsl_matrix_complex_free(parent); else gsl_matrix_complex_free(U);
+      } else if (k1 == "own" || k1 == "ext" || k1 == "shared") {
+        // two plain vectors by where their components live (module Guards, VecEntries)
+        alignas(32) double B1[40], B2[40];
+        for (int k = 0; k < 40; k++) { B1[k] = 0.25 * ((k * 7 + 3) % 11) - 1.0; B2[k] = 0.25 * ((k * 7 + 9) % 11) - 1.0; }
+        SU_vector u = (k1 == "own") ? mk(d1, 1) : SU_vector(d1, B1);
+        SU_vector w = (k1 == "shared") ? SU_vector(d2, B1) : (k2 == "ext" ? SU_vector(d2, B2) : mk(d2, 3));
+        auto su = snap(u), sw = snap(w);
+        std::vector<double> s1(B1, B1 + 40), s2(B2, B2 + 40);
+        try {
+          if (entry == "u=v") u = w;
+          else if (entry == "u=P") u = w * 2.0;
+          else if (entry == "u+=v") u += w;
+          else if (entry == "u-=v") u -= w;
+          else if (entry == "u*v") { volatile double sp = u * w; (void)sp; }
+          else if (entry == "u+v") { SU_vector res = u + w; (void)res; }
+          else if (entry == "u-v") { SU_vector res = u - w; (void)res; }
+          else if (entry == "iCommutator(u,v)") { SU_vector res = iCommutator(u, w); (void)res; }
+          else if (entry == "ACommutator(u,v)") { SU_vector res = ACommutator(u, w); (void)res; }
+          else if (entry == "u.Evolve(v)") { SU_vector res = u.Evolve(w, 0.7); (void)res; }
+          else throw std::logic_error("entry");
+        } catch (std::logic_error&) { logic = true; } catch (std::exception&) { threw = true; }
+        bool assigns = (entry == "u=v" || entry == "u=P" || entry == "u+=v" || entry == "u-=v");
+        if (threw || !assigns) {
+          if (!same(u, su) || !same(w, sw)) note = "operand-modified";
+          if (std::memcmp(B1, s1.data(), sizeof B1) != 0 || std::memcmp(B2, s2.data(), sizeof B2) != 0) note = "user-buffer-modified";
+        } else {
+          if (k1 != "shared" && !same(w, sw)) note = "source-modified";
+          // nothing beyond the target's own components is written
+          int used = (k1 == "own") ? 0 : d1 * d1;
+          if (std::memcmp(B1 + used, s1.data() + used, sizeof(double) * (40 - used)) != 0 || std::memcmp(B2, s2.data(), sizeof B2) != 0) note = "written-outside-the-target";
+        }
       } else if (entry.rfind("WeightedRotation", 0) == 0) {
         SU_vector a = mk(d1, 1), y = mk(d2, 2); auto sa = snap(a), sy = snap(y);
         Const par; par.SetMixingAngle(0, 1, 0.3);
